@@ -84,12 +84,13 @@ func (w *World) allHandles() []*Handle {
 
 func (w *World) structuralChecks() {
 	w.refStep()
-	var free map[unsafe.Pointer]bool
+	var free, freeLocs, freeRoots map[unsafe.Pointer]bool
 	if w.opt.FreeCheck {
-		var cyclic bool
+		var cyclic, cyclic2 bool
 		free, cyclic = g.VerifFreeNodes()
-		if cyclic {
-			w.failf("freelist-cyclic", "the node free list is cyclic (a node was freed twice)")
+		freeLocs, freeRoots, cyclic2 = g.VerifFreeHandles()
+		if cyclic || cyclic2 {
+			w.failf("freelist-cyclic", "a free list is cyclic (something was freed twice)")
 		}
 	}
 	for _, h := range w.allHandles() {
@@ -99,6 +100,15 @@ func (w *World) structuralChecks() {
 				continue
 			}
 			mc := h.m.Colls[name]
+			if w.opt.FreeCheck {
+				rp, np := c.VerifRootHandles()
+				if rp != nil && freeRoots[rp] {
+					w.failf("live-version-freed", "collection %q: the version handle of an open collection sits on the rootNodeLoc free list", name)
+				}
+				if np != nil && freeLocs[np] {
+					w.failf("live-root-nodeloc-freed", "collection %q: the root nodeLoc of an open collection's current version sits on the nodeLoc free list", name)
+				}
+			}
 			var nodes []g.VerifNode
 			complete := c.VerifWalk(4*len(mc.Items)+64, func(n g.VerifNode) { nodes = append(nodes, n) })
 			if !complete {
